@@ -3,21 +3,27 @@ from lib import terms
 from props import dbcommon as D
 
 ID = 'C14'
-IMPORTS = ['Engine.Db', 'Engine.DbCursor', 'Engine.DbFacts', 'Engine.RunDb']
+IMPORTS = ['Engine.Db', 'Engine.DbCursor', 'Engine.DbFacts', 'Engine.RunDb', 'Engine.DbProg', 'Engine.RunDbProg']
 THEOREMS = ['C14_cursor_visits_snapshot', 'C14_query_snapshot_at_first_next', 'C14_retract_at_most_once',
-            'C14_retract_at_most_once_from_init', 'C14_no_lost_update', 'C14_cursor_finite', 'C14_retract_goal_finite']
+            'C14_retract_at_most_once_from_init', 'C14_no_lost_update', 'C14_cursor_finite', 'C14_retract_goal_finite',
+            'C14_compiled_no_lost_update', 'C14_compiled_retract_at_most_once', 'C14_retract_cursor_in_snapshot_order']
 RULE = ('(a) event histories with 1-4 simultaneously suspended cursors (queries and retracts, started through the API, '
         'compiled clauses, call/1 and goals held in variables) mostly on ONE predicate, with asserta/assertz/retractall/'
         'clear and answers of other retract cursors between any two next(); all predicates read back after every event; '
         'compared with the model DbCursor.v.  (b) whole compiled programs (snapshot clause t(X) :- pre, p(X), post; drain, '
         'rotate, copy, counter and suspended-retract loops) with a step budget; compared with the answers and final '
         'contents that the logical update view prescribes.  Non-trivial: an update of the enumerated predicate happens '
-        'while a cursor on it is suspended (a); the loop body runs at least once (b).  Distinct by hash of the case.')
+        'while a cursor on it is suspended (a); the loop body runs at least once (b).  (c) kind dbprog: generated programs '
+        '(see C07) with up to 3 nested enumerating goals (p(X), retract(p(X)), helper calls) and updates of the same '
+        'predicate in the rest of the body, mostly failure-driven; compiled by the real compiler; compared with the model '
+        'Engine/DbProg.v (answers, final facts, number of facts stored).  Non-trivial (c): an enumerating goal is followed in '
+        'the same body by an update of its predicate.  Distinct by hash of the case.')
 TRUSTED_BASE = [
     'Coq 8.16.1 kernel (coqc); vm_compute for the in-Coq evaluation of the model on every case',
     'no axioms: all C14 theorems are closed under the global context',
     'hand-written model Engine/DbCursor.v (cursor = generator holding the list object it read at its first next(); retract '
     'tests identity in the current list and republishes the current list) tied to /repo by this differential run',
+    'hand-written model Engine/DbProg.v (compiled clause bodies with database builtins, depth first, database threaded through the search)',
     'harness: generators, driver of the implementation (harness/props/dbcommon.py, c14.py), expected values of the program templates',
     'modelled, not verified: CPython generator protocol; the compiler (programs are checked with an intrinsic oracle, not a model of the compiler)',
 ]
@@ -224,6 +230,8 @@ def gen(rng, tier):
         cases.append(c)
     for i in range(160 if tier == 'quick' else 3000):
         cases.append(gen_prog(rng))
+    for i in range(220 if tier == 'quick' else 3500):
+        cases.append(D.gen_dbprog(rng, loopy=0.7))
     return cases
 
 def builtin_corpus():
@@ -258,27 +266,37 @@ def builtin_corpus():
     ]:
         L.append({'kind': 'prog', 'template': 'corpus', 'source': src, 'facts': {'p': [[I(x)] for x in facts]}, 'query': q,
                   'read': [['p', 1]], 'expect_answers': ans, 'expect_db': db, 'loops': 1})
-    return L
+    return L + D.dbprog_corpus()
 
 def model_expr(case):
     if case.get('kind') == 'prog':
         return None
+    if case.get('kind') == 'dbprog':
+        return D.prog_model_expr(case)
     return D.model_expr(case)
 
 def impl(case):
     if case.get('kind') == 'prog':
         return run_prog(case)
+    if case.get('kind') == 'dbprog':
+        return D.prog_run_impl(case)
     return D.drive_events(case)
 
 def compare(case, io, mo):
+    if case.get('kind') == 'dbprog':
+        return D.prog_compare(case, io, mo)
     return D.compare_events(case, io, mo)
 
 def oracle(case, io):
     if case.get('kind') == 'prog':
         return prog_oracle(case, io)
+    if case.get('kind') == 'dbprog':
+        return D.prog_oracle(case, io)
     return D.list_oracle(case, io)
 
 def nontrivial(case, io):
+    if case.get('kind') == 'dbprog':
+        return D.prog_nontrivial(case, io)
     if case.get('kind') == 'prog':
         return isinstance(io, dict) and case.get('loops', 0) >= 1
     live = {}      # cursor -> key, for cursors that have been started by a next and not ended
@@ -312,12 +330,17 @@ def nontrivial(case, io):
     return False
 
 def describe(case):
+    if case.get('kind') == 'dbprog':
+        return D.prog_describe(case)
     if case.get('kind') == 'prog':
         return {'facts': {k: [terms.show_term(r[0]) for r in v] for k, v in case['facts'].items()}, 'program': case['source'],
                 'query': case['query'], 'repeat': case.get('repeat', 1)}
     return [D.show_event(e) for e in case['events']]
 
 def shrink(case):
+    if case.get('kind') == 'dbprog':
+        yield from D.prog_shrink(case)
+        return
     if case.get('kind') == 'prog':
         return
     for c in D.shrink_events(case):
@@ -334,6 +357,10 @@ def distribution(cases, obs):
             n = str(sum(len(v) for v in c['facts'].values()))
             d['prog_facts'][n] = d['prog_facts'].get(n, 0) + 1
             e = o['end'] if isinstance(o, dict) else 'other'
+            d['ended'][e] = d['ended'].get(e, 0) + 1
+            continue
+        if k == 'dbprog':
+            e = 'dbprog:' + (o['end'] if isinstance(o, dict) else 'other')
             d['ended'][e] = d['ended'].get(e, 0) + 1
             continue
         live = set(); m = 0
